@@ -2,7 +2,7 @@
 from props.base import *
 import subprocess
 NEEDS_VIEW = True     # reads the public fields of the automata objects
-COQ_TARGETS = ['props/Properties_C13.vo']
+COQ_TARGETS = ['props/Properties_C13.vo', 'props/Properties_C13h.vo']
 EXPECT_KEYS = {'ni'}
 RULE = ('band_update_stats on boundary-dense r (0, 1, 14, 15, 9769, 9770, 65535, 65536, 2^31, 2^32-1, powers of two +-1, random) x begun x prior counts, '
         'followed by band_choose_hello_time; thorough tier: every r in [0, 2^32) through the real band_update_stats (harness/bandsweep.c); '
